@@ -197,6 +197,9 @@ def gen(rnd: random.Random, opts: dict) -> Design:
     if rnd.random() < opts.get("p_mixed", 0.25):
         add_mixed_chain_pattern(D, rnd)
         keys = list(D.bodies)
+    if rnd.random() < opts.get("p_vdiamond", 0.15):
+        add_validated_diamond_pattern(D, rnd)
+        keys = list(D.bodies)
     for k in keys:  # Forwarder-style ready: ready = bit | other.run with other.schedule_before(this)
         if rnd.random() < opts.get("p_forwarder", 0.15):
             earlier = [x for x in keys if D.deford[x] < D.deford[k] and x != k]
@@ -238,6 +241,40 @@ def add_mixed_chain_pattern(D, rnd):
     s2 = new_site(D, t2, n_idx, pos=t2.pos + ((("if", sid), 0),))
     s3 = new_site(D, t2, m_idx, pos=t2.pos + ((("if", sid), 1),))
     t2.stmts.append(("if", sid, [cbit], [[("call", s2)]], [("call", s3)]))
+    return True
+
+
+def add_validated_diamond_pattern(D, rnd):
+    """Forced layout class: one transaction calls method A from two mutually exclusive sites (If / Else); A calls a method V with
+    validate_arguments. Whichever site is active, V's predicate must hold for the transaction to run."""
+    tops = [b for b in D.order if b.kind == "t"]
+    if not tops:
+        return False
+    t = rnd.choice(tops)
+    a_idx, v_idx = D.nm, D.nm + 1
+    D.nm += 2
+    D.meth.append(dict(has_in=False, nonex=False, validate=None, combiner=None, single_caller=False))
+    D.nins += 2
+    D.meth.append(dict(has_in=True, nonex=False, validate=(D.nins - 1, rnd.choice(["eq", "ne", "bit0"])), combiner=None, single_caller=False))
+    for idx in (a_idx, v_idx):
+        b = B("m", idx)
+        b.pos = ((("body", "m", idx), 0),)
+        D.nbits += 1
+        b.rdy = D.nbits - 1
+        D.bodies[b.key] = b
+        D.order.append(b)
+        D.deford[b.key] = len(D.deford)
+    ab = D.bodies[("m", a_idx)]
+    sv = new_site(D, ab, v_idx)
+    sv.arg = ("in", D.nins - 2)
+    ab.stmts.append(("call", sv))
+    sid = D.struct
+    D.struct += 1
+    D.nbits += 1
+    cbit = D.nbits - 1
+    s1 = new_site(D, t, a_idx, pos=t.pos + ((("if", sid), 0),))
+    s2 = new_site(D, t, a_idx, pos=t.pos + ((("if", sid), 1),))
+    t.stmts.append(("if", sid, [cbit], [[("call", s1)]], [("call", s2)]))
     return True
 
 
